@@ -11,7 +11,7 @@ def discrete_grid_pos_to_id(x: int, y: int = 0, width: int = 0, z: int = 0, heig
     """Returns a unique number of based on the x, y and z coordinates entered.
 
     Uniqueness is dimension dependent. The equation for calculating uniqueness is defined as:
-     ``(z * width * height) + (y * width) + x``
+     ``(z * width * height) + (y * width) + x`` where an extent of 0 (an unused axis) counts as a single layer.
 
     Parameters
     ----------
@@ -31,7 +31,7 @@ def discrete_grid_pos_to_id(x: int, y: int = 0, width: int = 0, z: int = 0, heig
     int
         The unique ID.
     """
-    return (z * width * height) + (y * width) + x
+    return (z * max(width, 1) * max(height, 1)) + (y * max(width, 1)) + x
 
 
 @deprecated(reason='For not meeting standard python naming conventions. Use "discrete_grid_pos_to_id" instead.')
@@ -624,7 +624,7 @@ class DiscreteWorld(SpaceWorld):
         IndexError
             If the specified coordinates are our outside the bound of the environment.
         """
-        if x < 0 or x >= self.width or y < 0 or y >= self.height or z < 0 or z >= self.depth:
+        if x < 0 or x >= max(self.width, 1) or y < 0 or y >= max(self.height, 1) or z < 0 or z >= max(self.depth, 1):
             raise IndexError(f'Coordinate ({x},{y},{z}) is not within the bounds of the environment.')
         else:
             return self.cells.iloc[discrete_grid_pos_to_id(x, y, self.width, z, self.height)]
